@@ -556,12 +556,17 @@ def to_docstring(
         if intermediate_repr.get("params")
         else "",
         returns=(
-            "{returns}\n{sep}".format(
-                returns=param2docstring_param(
+            (
+                lambda returns: "{returns}\n{sep}".format(
+                    returns=returns.rstrip(), sep=sep
+                )
+                if returns  # `None` when the return entry has no prose (nothing to write)
+                else ""
+            )(
+                param2docstring_param(
                     next(iter(intermediate_repr["returns"].items())),
                     emit_default_doc=emit_default_doc,
-                ).rstrip(),
-                sep=sep,
+                )
             )
             if (intermediate_repr.get("returns") or {"return_type": {}})["return_type"]
             else ""
